@@ -28,6 +28,22 @@ package vgirpc
 //@   ensures [instant] 0 <= ts.Unit && ts.Unit <= 3 ==> nsOf(result) == v * unitNs(ts.Unit)
 //@   ensures [utc] isUTC(result)
 
+// The writer's side (repaired defect: it wrote microseconds whatever the column's unit): the
+// value appended is the instant counted in the column's own unit, floor division, whenever that
+// count fits the wire's int64 — so timestampToTime(timeToTimestamp(t, ts), ts) is t truncated
+// to the unit. Both writers hand their column's own TimestampType to it.
+//
+//@ func timeToTimestamp
+//@   property C08
+//@   ensures [ownunit] 0 <= ts.Unit && ts.Unit <= 3 && -9223372036854775808 <= nsOf(t) / unitNs(ts.Unit) && nsOf(t) / unitNs(ts.Unit) <= 9223372036854775807 ==> result == nsOf(t) / unitNs(ts.Unit)
+//@ func buildArray
+//@   property C08
+//@   at call timeToTimestamp assert [columnsunit] arg1 == ts
+//@ func appendToBuilder
+//@   property C08
+//@   at call timeToTimestamp assert [columnsunit] iface(arg1) == dt
+//@ lemma timestampUnitRoundTrip [C08]: forall ns int, u int :: u == 1 || u == 1000 || u == 1000000 || u == 1000000000 ==> (ns / u) * u <= ns && ns - u < (ns / u) * u
+
 //@ lemma date32RoundTrip [C08]: forall ns int :: dayOf(dayOf(ns) * 86400000000000) == dayOf(ns) &&
 //@   dayOf(ns) * 86400000000000 <= ns && ns < (dayOf(ns) + 1) * 86400000000000
 //@ lemma timestampMicroRoundTrip [C08]: forall ns int :: ((ns / 1000) * 1000) / 1000 == ns / 1000 && ns - 1000 < (ns / 1000) * 1000 && (ns / 1000) * 1000 <= ns
